@@ -187,6 +187,9 @@ func (r *propRun) exec() int {
 	solver.CandRLimit = 8_000_000
 	solver.Confirm = r.tier == "thorough"
 	runner := &Runner{Solver: solver, Workers: runtime.NumCPU()}
+	if r.update {
+		runner.CanaryRLimit = 30_000_000
+	}
 
 	units := def.units(prog)
 	findings := loadFindings()
